@@ -7,7 +7,11 @@ extern "C" {
 // (or "found elsewhere") absence of the key is assumed at this ghost index only.  A contract that ties its own
 // ghost index to model_g obtains the universal statement (DESIGN.md 3.3); every other index stays unconstrained,
 // which over-approximates std::map/std::set (sound for safety proofs).
-extern unsigned long model_g;
-unsigned long __model_nondet_ulong();
+extern unsigned long model_g_map, model_g_set;
+// index chosen by the most recent lookup (== size: not found); lets a contract name the entry that was used
+extern unsigned long model_last_map, model_last_set;
+// one-shot witness for the next lookup ((size_t)-1: none, the index is chosen nondeterministically)
+extern unsigned long model_pick_map, model_pick_set;
+unsigned long nondet_model_ulong();
 }
 #endif
